@@ -147,9 +147,22 @@ class Machine:
 def replay(beh, use_numpy_index=False):
     """Replay one generated behaviour.  Returns None when the real code agrees with the
     specification at every step, else a dict describing the first disagreement."""
-    m = Machine(beh["init"], beh.get("ctor", "iterable"), use_numpy_index)
+    from ..core import from_library
+
+    try:
+        m = Machine(beh["init"], beh.get("ctor", "iterable"), use_numpy_index)
+    except Exception as e:
+        if not from_library(e):
+            raise
+        return {"step": "construction", "ctor": beh.get("ctor", "iterable"), "n": beh["init"],
+                "observed": "%s raised by menpo while the base list was built: %s" % (type(e).__name__, str(e)[:120])}
     for i, ev in enumerate(beh["hist"]):
-        obs = m.step(ev["op"], ev["args"])
+        try:
+            obs = m.step(ev["op"], ev["args"])
+        except Exception as e:
+            if not from_library(e):
+                raise
+            obs = {"raised": "%s: %s" % (type(e).__name__, str(e)[:120])}
         if obs != ev["obs"]:
             return {"step": i, "op": ev["op"], "args": ev["args"], "expected": ev["obs"], "observed": obs}
     if "final" in beh:
